@@ -51,7 +51,8 @@ def build(variant):
         sys.exit(2)
     return r.stdout.strip().splitlines()[-1]
 
-FRAME_RE = re.compile(r"#\d+ 0x[0-9a-f]+ in (.+?) (/repo/\S+?):(\d+)")
+REPO_DIR = os.environ.get("TSG_VERIF_REPO", "/repo").rstrip("/")
+FRAME_RE = re.compile(r"#\d+ 0x[0-9a-f]+ in (.+?) (" + re.escape(REPO_DIR) + r"/\S+?):(\d+)")
 def crash_key(stderr_text, rc):
     """stable key for a process death: sanitizer kind + first frame inside /repo (function name without arguments)"""
     kind = None
@@ -168,7 +169,7 @@ def run_chunk(tsgmon, prop, seed, first, count, tier, env, timeout, res, variant
             with res.lock:
                 res.evaluations += 1; res.viol_cases += 1
                 res.violations.extend(pending_viol)
-                res.violations.append(dict(index=ci, key=key, detail=json.dumps({"stderr": stderr_text[-3000:]}), descriptor=descriptor, variant=variant))
+                res.violations.append(dict(index=ci, key=key, detail=json.dumps({"stderr": (stderr_text if len(stderr_text) <= 6000 else stderr_text[:3000] + "\n...\n" + stderr_text[-3000:])}), descriptor=descriptor, variant=variant))
             idx = ci + 1
             continue
         if p.returncode == 0 and idx < end and open_case is None:
